@@ -21,16 +21,25 @@ class WireManagerBase(abc.ABC):
     def add_chop(self, chop: Chop) -> None:
         self.chops.append(chop)
 
+    def grading_length(self, wire: Wire) -> float:
+        """Length a wire's chops are resolved against: its own, except for a collapsed wire
+        (both ends at one vertex - a wedge standing on its axis), which has no cells to
+        distribute and takes the count of its axis by being graded like an average wire"""
+        if wire.is_valid:
+            return wire.length
+
+        return self.length
+
     @abc.abstractmethod
     def update(self) -> None:
         """Re-set grading and wires' lengths"""
         for wire in self.wires:
-            wire.grading.length = wire.length
+            wire.grading.length = self.grading_length(wire)
 
     def reset(self) -> None:
         """Forget the gradings of a previous grading pass; every pass starts from scratch"""
         for wire in self.wires:
-            wire.grading = Grading(wire.length)
+            wire.grading = Grading(self.grading_length(wire))
 
     @abc.abstractmethod
     def grade(self) -> None:
@@ -113,7 +122,7 @@ class WireChopManager(WireManagerBase):
         # must not pile new divisions on top of the existing ones
         self.grading = Grading(0)
         for wire in self.wires:
-            wire.grading = Grading(wire.length)
+            wire.grading = Grading(self.grading_length(wire))
 
         self.update()
 
@@ -181,7 +190,7 @@ class WirePropagateManager(WireManagerBase):
         for wire in self.wires:
             if not wire.grading.is_defined:
                 # the wire got its edge (or was moved) after its grading was created
-                wire.grading.length = wire.length
+                wire.grading.length = self.grading_length(wire)
 
                 for chop in self.chops:
                     wire.grading.add_chop(chop)
